@@ -53,6 +53,7 @@ template<class S,class Tg> void c07_inner(hx::Rec<S>& R){
   R.eq("sqnorm", a.squaredWeightedNorm(), (A.transpose()*A).trace());
   S wn=a.weightedNorm();
   R.eq("norm2", wn*wn, a.squaredWeightedNorm());
+  { using std::sqrt; R.eq("norm_def", wn, sqrt(a.squaredWeightedNorm())); }
   R.le("norm_nonneg", S(0.0), wn);
   // positive definiteness: a^T W a >= lambda |a|^2 with lambda = 1 (every generator has Frobenius norm >= 1 and W is diagonal for all provided groups)
   R.le("posdef", a.coeffs().squaredNorm(), a.squaredWeightedNorm());
